@@ -42,6 +42,11 @@ def confirm(prop, f, cldr):
         payload["how_to_replay"] = "%s eval %s" % (hostrun.HOST_BIN, f.case.dir)
         path = report.write_replay(prop, name, payload)
         return ("confirmed" if ok else "not_reproduced"), path
+    if getattr(f, "reconfirm", None) is not None:
+        ok, extra = f.reconfirm(f)
+        payload.update(extra)
+        path = report.write_replay(prop, name, payload)
+        return ("confirmed" if ok else "not_reproduced"), path
     if f.kind in ("required_args_differ", "count_bound_differs", "generated_code_rejected_by_rustc"):
         # rustc is the oracle: a crate that expands load_locales!() on the project and supplies exactly the arguments the
         # source requires must compile
@@ -133,7 +138,14 @@ def confirm(prop, f, cldr):
         for e, actual in zip(variants, actuals):
             triples.append((replay.eval_term(f.ref, e), replay.eval_term(f.gen, e), actual))
     except replay.ReplayError as e:
-        payload["replay_error"] = str(e)
+        payload["replay_error"] = str(e)[-1500:]
+        # does the crate build at all with nothing but load_locales!() ? if not, the generated code itself is rejected by rustc
+        try:
+            replay.run_requests(f.case.dir, [])
+        except replay.ReplayError as e2:
+            payload["native"] = {"compiled": False, "rustc": str(e2)[-1800:], "note": "a crate containing only leptos_i18n::load_locales!() on this valid project does not compile"}
+            path = report.write_replay(prop, name, payload)
+            return "confirmed", path
         path = report.write_replay(prop, name, payload)
         return "unreplayable", path
     expected, predicted, actual = triples[0]
